@@ -70,6 +70,14 @@ def check_case(lines, obs):
             sv, iv, ov = [[pv(x) for x in p.split(" ") if x] for p in parts]
             d = dsets[t[3]]
             stocks.append((t[1], t[2], Arr(d, sv), Arr(d, iv), Arr(d, ov)))
+        elif t[0] == "tol" and ob.startswith("ok "):
+            vals = [v for f in flows for v in f[3].data.values()] + [v for s in stocks for v in s[2].data.values()]
+            if any(v == "nan" for v in vals):
+                continue
+            want = EPS * max([abs(v) for v in vals] + [Fraction(0)])
+            got = ob.split(" ")[1]
+            if got in ("nan", "inf", "-inf") or abs(pv(got) - want) > want / 10 ** 9:
+                return fail(ln, "the default tolerance is scaled to the largest flow or stock magnitude (every flow, every stock)", want, got)
         elif t[0] in ("cmb", "cf"):
             # contributions per process: (array, sign)
             contrib = {p: [] for p in procs}
